@@ -10,10 +10,14 @@ import json, os, re, subprocess, sys, time, shutil, tempfile, hashlib
 ROOT = os.path.dirname(os.path.dirname(os.path.abspath(__file__)))
 SPEC = os.path.join(ROOT, "spec")
 HARNESS = os.path.join(ROOT, "harness")
-BUILD = os.path.join(ROOT, ".build")
+# The registered commands decide /repo and write under /verif.  Two overrides exist for mutation testing of the machinery itself
+# (bin/seedtest -w): VERIF_REPO names another checkout of artela-evm to decide, VERIF_OUT another root for build output, evidence and replays.
+REPO = os.environ.get("VERIF_REPO", "/repo")
+OUT = os.environ.get("VERIF_OUT", ROOT)
+BUILD = os.path.join(OUT, ".build")
 VERIFH = os.path.join(BUILD, "verifh")
-EVID = os.path.join(ROOT, "evidence")
-REPLAYS = os.path.join(ROOT, "replays")
+EVID = os.path.join(OUT, "evidence")
+REPLAYS = os.path.join(OUT, "replays")
 TLAJAR = "/opt/veriftools/tla/tla2tools.jar:/opt/veriftools/tla/CommunityModules-deps.jar"
 
 GOENV = dict(os.environ, GOFLAGS="-mod=mod", GOPROXY="off", GOSUMDB="off", GOTOOLCHAIN="local")
@@ -40,7 +44,16 @@ def build_harness(race=False):
     import fcntl
     out = VERIFH + ("_race" if race else "")
     tmp = out + ".%d.tmp" % os.getpid()
-    cmd = ["go", "build", "-tags", "verif"] + (["-race"] if race else []) + ["-o", tmp, "./cmd/verifh"]
+    mod = []
+    if REPO != "/repo":
+        alt = os.path.join(BUILD, "alt.mod")
+        with open(os.path.join(HARNESS, "go.mod")) as f:
+            txt = f.read().replace("=> /repo", "=> " + REPO)
+        with open(alt, "w") as f:
+            f.write(txt)
+        shutil.copy(os.path.join(HARNESS, "go.sum"), os.path.join(BUILD, "alt.sum"))
+        mod = ["-modfile", alt]
+    cmd = ["go", "build", "-tags", "verif"] + mod + (["-race"] if race else []) + ["-o", tmp, "./cmd/verifh"]
     t0 = time.time()
     with open(os.path.join(BUILD, ".lock"), "w") as lk:
         fcntl.flock(lk, fcntl.LOCK_EX)      # concurrent checks share one output path
